@@ -15,3 +15,147 @@ package tcell
 //@   balanceonly
 //@   initfuncs Init NewTerminfoScreen
 //@   entry onKeyEvent onMouseEvent onPaste onFocus unset
+
+// ---- C19: colours as 24-bit values, xterm-like palette for the 16 basic colours -------------
+
+//@ spec webSys(i Color) int32 =
+//@     i == 0 ? 0x000000 : i == 1 ? 0xcd0000 : i == 2 ? 0x00cd00 : i == 3 ? 0xcdcd00 :
+//@     i == 4 ? 0x0000ee : i == 5 ? 0xcd00cd : i == 6 ? 0x00cdcd : i == 7 ? 0xe5e5e5 :
+//@     i == 8 ? 0x7f7f7f : i == 9 ? 0xff0000 : i == 10 ? 0x00ff00 : i == 11 ? 0xffff00 :
+//@     i == 12 ? 0x5c5cff : i == 13 ? 0xff00ff : i == 14 ? 0x00ffff : 0xffffff
+
+//@ spec webColor(c Color) int32 =
+//@     c&ColorValid == 0 ? -1 :
+//@     c&ColorIsRGB != 0 ? int32(c & 0xffffff) :
+//@     (c >= ColorValid && c <= ColorValid+15) ? webSys(c - ColorValid) :
+//@     (has(ColorValues, c) ? ColorValues[c] : -1)
+
+//@ func paletteColor
+//@   arith bv
+//@   ensures [web] result == webColor(c)
+//@   ensures [rgb] c&ColorValid != 0 && c&ColorIsRGB != 0 ==> result == int32(c & 0xffffff)
+//@   ensures [basic] c >= ColorValid && c <= ColorValid+15 ==> result == webSys(c - ColorValid)
+//@   ensures [invalid] c&ColorValid == 0 ==> result == -1
+//@   ensures [table] c&ColorValid != 0 && c&ColorIsRGB == 0 && !(c >= ColorValid && c <= ColorValid+15) ==>
+//@              result == (has(ColorValues, c) ? ColorValues[c] : -1)
+//@   modifies nothing
+
+// ---- C19: drawCell hands exactly the logical cell to JavaScript, and only when it changed -----
+
+//@ spec orDefault(v int32, d int32) int32 = v == -1 ? d : v
+//@ spec shownMain(c cell) rune = (c.width == 0 || c.currMain < ' ') ? ' ' : c.currMain
+//@ spec shownWidth(c cell) int = (c.width == 0 || c.currMain < ' ') ? 1 : c.width
+//@ spec shownStyle(c cell, def Style) Style = c.currStyle == StyleDefault ? def : c.currStyle
+
+//@ func (*wScreen).drawCell
+//@   arith math
+//@   requires cbwf(&t.cells)
+//@   let i = y*t.cells.w + x
+//@   let inr = inRange(&t.cells, x, y)
+//@   let c0 = t.cells.cells[y*t.cells.w + x]
+//@   let st = shownStyle(t.cells.cells[y*t.cells.w + x], t.style)
+//@   let d0 = inRange(&t.cells, x, y) && isDirty(t.cells.cells[y*t.cells.w + x])
+//@   ensures [width] result == (inr ? shownWidth(c0) : 0)
+//@   ensures [clean-silent] !d0 ==> calls(Call) == 0
+//@   ensures [clean-frame] !d0 ==> forall k int :: 0 <= k && k < len(t.cells.cells) ==> t.cells.cells[k] == old(t.cells.cells[k])
+//@   ensures [dirty-once] d0 ==> calls(Call) == 1
+//@   calls [dirty-args] call(Call, recv, m, args, ret) ==> m == "drawCell" && len(args) == 8 &&
+//@              dyn(args[0]) == x && dyn(args[1]) == y && strOfRunes(dyn(args[2]), shownMain(c0), c0.currComb) &&
+//@              dyn(args[3]) == orDefault(webColor(st.fg), 0xe5e5e5) && dyn(args[4]) == orDefault(webColor(st.bg), 0x000000) &&
+//@              dyn(args[5]) == int(st.attrs) && dyn(args[6]) == int(st.ulStyle) && dyn(args[7]) == int(orDefault(webColor(st.ulColor), 0x000000))
+//@   ensures [cleaned] inr ==> !isDirty(t.cells.cells[i])
+//@   ensures [width-kept] inr ==> t.cells.cells[i].width == old(t.cells.cells[i].width)
+//@   ensures [main-kept] inr && old(t.cells.cells[i].currMain) != 0 ==> t.cells.cells[i].currMain == old(t.cells.cells[i].currMain)
+//@   ensures [others] forall k int :: 0 <= k && k < len(t.cells.cells) && k != i ==> t.cells.cells[k] == old(t.cells.cells[k])
+//@   ensures [shape] shapeKept(&t.cells, old(t.cells.w), old(t.cells.h), old(t.cells.cells))
+//@   modifies t.cells.cells[*]
+
+// draw: every drawCell call is for a cell of the screen (so, by drawCell's contract, JavaScript sees exactly the
+// logical content of each changed cell and is not called for unchanged ones); cells that were clean stay
+// untouched; the frame ends with one "show".  The hidden right halves of wide cells are skipped.
+
+//@ pred narrow(c cell) = c.width == 1 && c.currMain >= ' '
+
+//@ func (*wScreen).clearScreen
+//@   arith math
+//@   ensures [flag] !t.clear
+//@   modifies t.clear
+
+//@ func (*wScreen).draw
+//@   arith math
+//@   requires cbwf(&t.cells) && t.w == t.cells.w && t.h == t.cells.h
+//@   requires [widths] forall k int :: 0 <= k && k < len(t.cells.cells) ==> t.cells.cells[k].width >= 0
+//@   calls [visit] call(drawCell, recv, px, py, ret) ==> 0 <= px && px < t.cells.w && 0 <= py && py < t.cells.h
+//@   calls [show] call(Call, recv, m, args, ret) ==> m == "show" && len(args) == 0
+//@   ensures [untouched] forall k int :: 0 <= k && k < len(t.cells.cells) && !isDirty(old(t.cells.cells[k])) ==> t.cells.cells[k] == old(t.cells.cells[k])
+//@   ensures [shape] shapeKept(&t.cells, old(t.cells.w), old(t.cells.h), old(t.cells.cells))
+//@   ensures [cleared] !t.clear
+//@   let an0 = forall k int :: 0 <= k && k < len(t.cells.cells) ==> narrow(t.cells.cells[k])
+//@   ensures [complete-narrow] an0 ==> forall k int :: 0 <= k && k < len(t.cells.cells) ==> !isDirty(t.cells.cells[k])
+//@   loop 1:
+//@     invariant [y] 0 <= y
+//@     invariant [shape] cbwf(&t.cells) && shapeKept(&t.cells, old(t.cells.w), old(t.cells.h), old(t.cells.cells)) && t.w == t.cells.w && t.h == t.cells.h && !t.clear
+//@     invariant [untouched] forall k int :: 0 <= k && k < len(t.cells.cells) && !isDirty(old(t.cells.cells[k])) ==> t.cells.cells[k] == old(t.cells.cells[k])
+//@     invariant [widths] forall k int :: 0 <= k && k < len(t.cells.cells) ==> t.cells.cells[k].width >= 0
+//@     invariant [narrow] an0 ==> forall k int :: 0 <= k && k < len(t.cells.cells) ==> narrow(t.cells.cells[k])
+//@     invariant [done] an0 ==> y <= t.h && (forall k int :: 0 <= k && k < y*t.cells.w ==> !isDirty(t.cells.cells[k]))
+//@     decreases t.h - y
+//@   loop 1.1:
+//@     invariant [x] 0 <= x && 0 <= y && y < t.h
+//@     invariant [shape] cbwf(&t.cells) && shapeKept(&t.cells, old(t.cells.w), old(t.cells.h), old(t.cells.cells)) && t.w == t.cells.w && t.h == t.cells.h && !t.clear
+//@     invariant [untouched] forall k int :: 0 <= k && k < len(t.cells.cells) && !isDirty(old(t.cells.cells[k])) ==> t.cells.cells[k] == old(t.cells.cells[k])
+//@     invariant [widths] forall k int :: 0 <= k && k < len(t.cells.cells) ==> t.cells.cells[k].width >= 0
+//@     invariant [narrow] an0 ==> forall k int :: 0 <= k && k < len(t.cells.cells) ==> narrow(t.cells.cells[k])
+//@     invariant [done] an0 ==> x <= t.w && (forall k int :: 0 <= k && k < y*t.cells.w + x ==> !isDirty(t.cells.cells[k]))
+//@     decreases t.w - x
+//@   modifies t.cells.cells[*], t.clear
+
+// ---- C19: callbacks from JavaScript become the corresponding events ---------------------------
+// MouseEvent.which: 0 none, 1 left, 2 middle, 3 right.  tcell: Button1 left, Button3 middle, Button2 right.
+
+//@ spec whichBtn(w int) ButtonMask = w == 1 ? Button1 : w == 2 ? Button3 : w == 3 ? Button2 : ButtonNone
+//@ spec jsMod(shift bool, alt bool, ctrl bool, meta bool) ModMask =
+//@     (shift ? ModShift : ModNone) | (alt ? ModAlt : ModNone) | (ctrl ? ModCtrl : ModNone) | (meta ? ModMeta : ModNone)
+
+//@ func (*wScreen).postEvent
+//@   arith bv
+//@   modifies nothing
+
+//@ func (*wScreen).onMouseEvent
+//@   arith bv
+//@   requires len(args) >= 6
+//@   let code = purecall("syscall/js.Value.Int", 0, args[2])
+//@   let unwanted = purecall("syscall/js.Value.Int", 0, args[2]) == 0 && t.mouseFlags&MouseMotionEvents == 0
+//@   ensures [dropped] unwanted ==> calls(postEvent) == 0
+//@   ensures [posted] !unwanted ==> calls(postEvent) == 1
+//@   calls [event] call(postEvent, recv, ev, ret) ==>
+//@              asptr(ev, "EventMouse").x == purecall("syscall/js.Value.Int", 0, args[0]) &&
+//@              asptr(ev, "EventMouse").y == purecall("syscall/js.Value.Int", 0, args[1]) &&
+//@              asptr(ev, "EventMouse").btn == whichBtn(code) &&
+//@              asptr(ev, "EventMouse").mod == jsMod(purecall("syscall/js.Value.Bool", 0, args[3]), purecall("syscall/js.Value.Bool", 0, args[4]), purecall("syscall/js.Value.Bool", 0, args[5]), false)
+//@   modifies nothing
+
+//@ func (*wScreen).onPaste
+//@   arith bv
+//@   requires len(args) >= 1
+//@   ensures [one] calls(postEvent) == 1
+//@   calls [event] call(postEvent, recv, ev, ret) ==> asptr(ev, "EventPaste").start == purecall("syscall/js.Value.Bool", 0, args[0])
+//@   modifies nothing
+
+//@ func (*wScreen).onFocus
+//@   arith bv
+//@   requires len(args) >= 1
+//@   ensures [one] calls(postEvent) == 1
+//@   calls [event] call(postEvent, recv, ev, ret) ==> asptr(ev, "EventFocus").Focused == purecall("syscall/js.Value.Bool", 0, args[0])
+//@   modifies nothing
+
+// Show: one frame under the lock; same guarantees as draw.
+//@ func (*wScreen).Show
+//@   arith math
+//@   requires cbwf(&t.cells) && t.w == t.cells.w && t.h == t.cells.h
+//@   requires [widths] forall k int :: 0 <= k && k < len(t.cells.cells) ==> t.cells.cells[k].width >= 0
+//@   let an0 = forall k int :: 0 <= k && k < len(t.cells.cells) ==> narrow(t.cells.cells[k])
+//@   ensures [untouched] forall k int :: 0 <= k && k < len(t.cells.cells) && !isDirty(old(t.cells.cells[k])) ==> t.cells.cells[k] == old(t.cells.cells[k])
+//@   ensures [complete-narrow] an0 ==> forall k int :: 0 <= k && k < len(t.cells.cells) ==> !isDirty(t.cells.cells[k])
+//@   ensures [once] calls(draw) == 1
+//@   modifies t.cells.cells[*], t.clear, t.Mutex
